@@ -247,9 +247,12 @@ def flagAV (s : CliSpec) (d : String) : AV :=
 
 def isSpecial (o : OptSpec) : Bool := o.action == "PHPArgs" || o.action == "compose_two_parsers"
 
+def flagOpts (s : CliSpec) : List OptSpec := (mainOpts s).filter (fun o => !isSpecial o)
+
+def specialOpts (s : CliSpec) : List OptSpec := (mainOpts s).filter isSpecial
+
 /-- the dests set by the flags of the main parser -/
-def mainWorld (s : CliSpec) : World :=
-  (((mainOpts s).filter (fun o => !isSpecial o)).map (·.dest)).eraseDups.map (fun d => (d, flagAV s d))
+def mainWorld (s : CliSpec) : World := (flagOpts s).map (fun o => (o.dest, flagAV s o.dest))
 
 /-- a positional of a sub-parser -/
 def subAV (o : OptSpec) : AV :=
@@ -267,10 +270,6 @@ def phpWorlds : List World :=
 /-- the main parser's dest of the custom action is bound only to `None` (its default: the action stores elsewhere) -/
 def specialDefaults (s : CliSpec) : World :=
   ((mainOpts s).filter isSpecial).map (fun o => (o.dest, avOfVal o.defaultVal))
-
-def flagOpts (s : CliSpec) : List OptSpec := (mainOpts s).filter (fun o => !isSpecial o)
-
-def specialOpts (s : CliSpec) : List OptSpec := (mainOpts s).filter isSpecial
 
 /-- what the custom action of the sub-command can bind: one list per sub-parser (`php`: graph form, numeric form) -/
 def specialWorlds (s : CliSpec) : List World :=
@@ -304,6 +303,7 @@ def worldTablesOK (s : CliSpec) : Bool :=
     (keysOf sw).Nodup &&
     (keysOf sw).all (fun d => !((flagOpts s).map (·.dest)).contains d && !((specialOpts s).map (·.dest)).contains d)) &&
   ((flagOpts s).map (·.dest)).all (fun d => !((specialOpts s).map (·.dest)).contains d) &&
+  s.templates.all (fun t => t.raises == "" || shielded t.raises) &&
   (if s.cls == "PHPCmdHelper" then (specialOpts s).all (fun o => o.action == "PHPArgs")
    else (specialOpts s).all (fun o => o.action == "compose_two_parsers" && o.compose.length == 2 &&
      o.compose.all (fun p => (subPositionals s p).all subOptOK && ((subPositionals s p).map (·.dest)).Nodup) &&
